@@ -254,7 +254,7 @@ func c10Step(el *[c10E]*secp256k1.Element, sc *[c10S]*secp256k1.Scalar, m c10Mod
 				err = fmt.Errorf("invalid scalar encoding accepted")
 			}
 
-			nm.s[o.i] = ref.OS2IP(r.Encode())
+			nm.s[o.i] = ref.Unmont(r.S, ref.N)
 		default:
 			panic("unknown scalar op " + o.name)
 		}
@@ -326,7 +326,83 @@ func C10persist(r *ev.Report) {
 	r.Sample(Case{"op": "persist", "path": fmt.Sprint(paths[len(paths)-7]), "meaning": "indices into the operation alphabet of C10real"})
 }
 
+// persistSub runs every history of depth <= 3 over the operation instances selected by keep, on persistent
+// objects; used to give C04 and C07 their own view of "encodings after any history".
+func persistSub(rule string, keep func(o c10Op) bool, depth3 func(o c10Op) bool) func(r *ev.Report) {
+	return func(r *ev.Report) {
+		all := c10Ops()
+
+		var ops, deep []int
+
+		for i, o := range all {
+			if keep(o) {
+				ops = append(ops, i)
+
+				if depth3(o) {
+					deep = append(deep, i)
+				}
+			}
+		}
+
+		var paths [][]int
+
+		for _, a := range ops {
+			for _, b := range ops {
+				paths = append(paths, []int{a, b})
+			}
+		}
+
+		for _, a := range deep {
+			for _, b := range deep {
+				for _, c := range deep {
+					paths = append(paths, []int{a, b, c})
+				}
+			}
+		}
+
+		r.Rule(rule)
+		r.Bound("operation_instances", len(ops))
+		r.Bound("depth3_sub_alphabet", len(deep))
+		r.Bound("histories", len(paths))
+		r.States.Add(int64(len(paths)))
+
+		r.ParFor(len(paths), func(_, i int) {
+			r.Transitions.Add(int64(len(paths[i])))
+			r.Evals.Add(1)
+			r.Distinct.Add(1)
+
+			if key, detail := c10PersistRun(paths[i], all); key != "" {
+				r.Violation(key, detail, Case{"op": "persist", "path": fmt.Sprint(paths[i])})
+			}
+		})
+
+		r.Sample(Case{"op": "persist", "path": fmt.Sprint(paths[len(paths)/2])})
+	}
+}
+
 func init() {
+	Parts["C04persist"] = Part{"C04", persistSub(
+		"histories on persistent element objects: every sequence of 2 element operations (every receiver/argument choice: arithmetic, Set, Copy, Base, Identity, all decode paths incl. rejected ones, hashing results) and every sequence of 3 over the codec-related ones; after every step the compressed encoding of every element must be the SEC1 encoding of the group element its stored coordinates represent (an encoder answering from a memo that some path forgot to invalidate is stale here); non-trivial = all",
+		func(o c10Op) bool { return o.elem },
+		func(o c10Op) bool {
+			switch o.name {
+			case "Decode(Encode)", "Decode(EncodeUncompressed)", "DecodeHex(Hex)", "UnmarshalBinary(MarshalBinary)", "Decode(invalid)", "Base", "Double", "Identity":
+				return true
+			}
+
+			return false
+		})}
+	Parts["C07persist"] = Part{"C07", persistSub(
+		"histories on persistent scalar objects: every sequence of 2 scalar operations (every receiver/argument choice, incl. rejected decodes) and every sequence of 3 over the codec-related ones; after every step Encode of every scalar must be the 32-byte big-endian form of the value its stored limbs represent, and Bits its expansion; non-trivial = all",
+		func(o c10Op) bool { return !o.elem },
+		func(o c10Op) bool {
+			switch o.name {
+			case "Decode(Encode)", "DecodeHex(Hex)", "Decode(invalid)", "MinusOne", "Add", "Set":
+				return true
+			}
+
+			return false
+		})}
 	Parts["C10persist"] = Part{"C10", C10persist}
 	Parts["C14persist"] = Part{"C14", C14persist}
 }
